@@ -66,7 +66,7 @@ func (c06) Info() core.Info {
 			"descriptor bodies are compared through the decoders for the decodable kinds; opaque descriptors by tag only (the API exposes no raw body)",
 			"after an injected reader error ReadPMT may return that error or the exact answer; truncation before the last needed packet must give ErrPMTNotFound",
 		},
-		RequiredProbes: []string{"first_packet_payload_le3", "split_inside_header", "split_inside_descriptor", "split_before_crc", "pointer_gt0", "foreign_section_before", "interleaved", "af_len0_stuffing", "multi_packet_ge3", "section_len_ge_1000", "other_pmt_on_other_pid", "trailing_stuffing", "truncated_before_end", "zero_streams", "es_info_length_ge_256", "program_info_length_ge_256", "prelude_unit_on_pmt_pid", "pointer_255", "held_pmt_rechecked", "more_than_255_descriptors", "entry_starts_with_ff_ff_ff", "pmt_after_70000_packets", "pat_and_two_pmts_from_one_reader", "reader_is_a_bufio_reader", "foreign_packet_on_pid_4_to_15"},
+		RequiredProbes: []string{"first_packet_payload_le3", "split_inside_header", "split_inside_descriptor", "split_before_crc", "pointer_gt0", "foreign_section_before", "interleaved", "af_len0_stuffing", "multi_packet_ge3", "section_len_ge_1000", "other_pmt_on_other_pid", "trailing_stuffing", "truncated_before_end", "zero_streams", "es_info_length_ge_256", "program_info_length_ge_256", "prelude_unit_on_pmt_pid", "pointer_255", "held_pmt_rechecked", "more_than_255_descriptors", "entry_starts_with_ff_ff_ff", "pmt_after_70000_packets", "pat_and_two_pmts_from_one_reader", "reader_is_a_bufio_reader", "foreign_packet_on_pid_4_to_15", "neighbour_section_longer_than_1021"},
 	}
 }
 
@@ -124,7 +124,12 @@ func (c06) Gen(r *core.Rand, tier string) interface{} {
 	// still a legal payload layout for the library (filler reaching into the next packet)
 	s.Pointer = r.Pick(0, 0, 0, 1, 5, 20, 182, 183, 254, 255, r.Range(0, 182), r.Range(0, 255))
 	for i := r.Pick(0, 0, 0, 1, 2); i > 0; i-- {
-		s.Before = append(s.Before, genForeignSection(r))
+		f := genForeignSection(r)
+		if r.Chance(1, 8) {
+			// the 1021-byte limit is the PMT's; a private section next to it may be up to 4093
+			f.Body = r.Bytes(r.Pick(1017, 1018, 1019, 2000, 4089))
+		}
+		s.Before = append(s.Before, f)
 	}
 	s.Trailing = r.Pick(0, 0, 1, 2, 10, 100, 200)
 	for i := r.Pick(0, 0, 0, 0, 1, 2); i > 0; i-- {
@@ -310,6 +315,11 @@ func (c06) Exec(script interface{}, c *core.Ctx) {
 	}
 	if ptr == 255 {
 		c.Probe("pointer_255")
+	}
+	for _, f := range s.Before {
+		if len(f.Body)+4 > 1021 {
+			c.Probe("neighbour_section_longer_than_1021")
+		}
 	}
 	if len(s.Before) > 0 {
 		c.Probe("foreign_section_before")
